@@ -307,7 +307,23 @@ def finish(run, level='model_checking', rule='', exhaustive=False, extra_cov=Non
     rc = 0
     seen_sig = set()
     nrep = 0
+
+    def sig_of(v):
+        d = v['obs'].get('detail', '')
+        head, _, app = d.partition(' applicable:')
+        return (v['obs'].get('check'), v['obs'].get('codec'), head.split(';')[0][:60], app)
+    # one representative of every distinct kind of violation first, so that none is hidden by the print limit
+    first, rest, seen0 = [], [], set()
     for v in run.violations:
+        (rest if sig_of(v) in seen0 else first).append(v)
+        seen0.add(sig_of(v))
+    if len(seen0) > 1 or len(run.violations) > 40:
+        counts = {}
+        for v in run.violations:
+            counts[sig_of(v)] = counts.get(sig_of(v), 0) + 1
+        for sg, n in sorted(counts.items(), key=lambda kv: -kv[1])[:60]:
+            print('violation kind x%d: %s' % (n, ' | '.join(str(x) for x in sg)))
+    for v in first + rest:
         sig = (v['obs'].get('check'), v['obs'].get('codec'), v['obs'].get('detail', '')[:80])
         nrep += 1
         path = os.path.join(run.replays, '%s-%s-%d.json' % (run.prop, run.tier, nrep))
